@@ -2040,6 +2040,12 @@ class Exec:
                 t = fn(self.seq(subj, st))
                 st.ghost.setdefault('regex', []).append((pat, rep, self.seq(subj, st), t))
                 return [(st, VTuple([VBytes(t), VInt(fresh('nsub'))]) if name == 're.subn' else VBytes(t))]
+            if name == 'unicodedata.normalize' and len(A) == 2 and isinstance(A[0], VStr) and isinstance(A[0].s, str) and isinstance(A[1], VStr):
+                # Unicode normalisation of text: some OTHER text in general (uninterpreted; no law such as idempotence is assumed)
+                if A[1].z is None and not isinstance(A[1].s, str):
+                    raise ToolLimit('unicodedata.normalize of an unknown str')
+                fn = z3.Function('UNICODE_NORMALIZE[%s]' % A[0].s, BYTES, BYTES)
+                return [(st, VStr(z=fn(self.strseq(A[1])), cp=A[1].cp))]
             if name.split('.')[0] in ('warnings', 'logging') or name in ('print',):
                 hk = self.hooks.get(('ext', name))          # a scenario may observe warnings (C10: 'Incorrect crc24'); default: no effect
                 if hk is not None:
